@@ -2319,6 +2319,8 @@ impl<'c, 's:'c, 'r, 'm:'c> SpeechRulesWithContext<'c, 's,'m> {
                 if !pattern.match_uses_var_defs && pattern.var_defs.len() > 0 { // don't push them on twice
                     self.context_stack.push(pattern.var_defs.clone(), mathml)?;
                 }
+                #[cfg(mathcat_verif)]
+                crate::verif_hooks::record_rule(&self.speech_rules.name.to_string(), &pattern.file_name, &pattern.tag_name, &pattern.pattern_name);
                 let result: Result<T> = pattern.replacements.replace(self, mathml);
                 if pattern.var_defs.len() > 0 {
                     self.context_stack.pop();
